@@ -2,6 +2,8 @@ package restful
 
 import (
 	"bytes"
+	"compress/gzip"
+	"compress/zlib"
 	"io/ioutil"
 	"net/http"
 	"net/url"
@@ -71,7 +73,8 @@ func H_C13_read(enc, provider int) {
 // Threads use the provider through the ledger, every provider call being a point where the scheduler may switch.
 // provider as in vProvider; kind 0 gzip writer, 1 zlib writer, 2 gzip reader: each thread acquires, works, releases;
 // kind 3: two encoded responses through a container (gzip, Dispatch), kind 4: the same with deflate, kinds 5/6: the same
-// through ServeHTTP (which closes the response writer a second time after dispatch has); pre: preemption bound
+// through ServeHTTP (which closes the response writer a second time after dispatch has); kinds 7-9: kinds 0-2 after a
+// sequential burst of three acquisitions and releases; pre: preemption bound
 func H_C13_sched(provider, nthreads, kind, pre int) {
 	led := vNewLedger(vProvider(provider))
 	led.yield = true
@@ -79,7 +82,7 @@ func H_C13_sched(provider, nthreads, kind, pre int) {
 	SetCompressorProvider(led)
 	defer SetCompressorProvider(old)
 	var recs []*vRec
-	if kind >= 3 {
+	if kind >= 3 && kind < 7 {
 		c := NewContainer()
 		c.EnableContentEncoding(true)
 		ws := new(WebService)
@@ -107,6 +110,33 @@ func H_C13_sched(provider, nthreads, kind, pre int) {
 			})
 		}
 	} else {
+		if kind >= 7 {
+			// a history first: more objects than any cache holds are taken and given back one after the other, so that
+			// some release finds the cache full (what a provider does with the surplus must not come back twice)
+			kind -= 7
+			var held []interface{}
+			for i := 0; i < 3; i++ {
+				switch kind {
+				case 0:
+					held = append(held, led.AcquireGzipWriter())
+				case 1:
+					held = append(held, led.AcquireZlibWriter())
+				case 2:
+					held = append(held, led.AcquireGzipReader())
+				}
+			}
+			for _, o := range held {
+				switch x := o.(type) {
+				case *gzip.Writer:
+					led.ReleaseGzipWriter(x)
+				case *zlib.Writer:
+					led.ReleaseZlibWriter(x)
+				case *gzip.Reader:
+					led.ReleaseGzipReader(x)
+				}
+			}
+			verifCover("after-a-burst")
+		}
 		for t := 0; t < nthreads; t++ {
 			verifSpawn(func() {
 				switch kind {
